@@ -19,9 +19,9 @@ SPEC = {
               "5": "accept / reject differs on a legal input",
               "6": "viewBox transform differs"},
     "theorems_for_kind": {
-        "path": "C18_path_interp_spec / C18_lex_number_spec", "bad": "C18_svg_parse_total",
-        "points": "C18_lex_number_spec", "viewbox": "C18_viewbox_spec", "viewbox-doc": "C18_viewbox_spec",
-        "shapes": "C18_shapes_spec", "use": "C18_use_graph_terminates", "refs": "C18_use_graph_terminates (drawing-time references)",
+        "path": "C18_path_string_spec (C18_path_interp_spec + C18_lex_spec / C18_lex_arc_spec)", "bad": "C18_svg_parse_total",
+        "points": "C18_lex_spec / C18_lex_arc_spec", "viewbox": "C18_viewbox_spec", "viewbox-doc": "C18_viewbox_spec",
+        "shapes": "C18_shapes_spec_rect / _ellipse / _line_poly, C18_parse_poly_spec", "use": "C18_use_graph_terminates", "refs": "C18_use_graph_terminates (drawing-time references)",
     },
     "rule": "SplitMix64-seeded generators: abstract path command lists (all commands, 1-3 argument groups, arcs with zero radii / identical end points) printed with random legal concrete syntax (separators, glued signs and dots, exponents, arc flags without separators); mutated / random malformed path data; number lists; viewBox x preserveAspectRatio x viewport; whole documents (shapes, <use> graphs and paint-server / marker / clipPath / mask graphs with cycles and dangling ids) through svg.Parse + Draw in watchdog-ed worker processes; distinct by Coq term (documents: by source text)",
 }
